@@ -255,7 +255,8 @@ Record version := mkver {
   v_dict_ignores_one_byte : bool; (* `size <= 1` is part of the `dictionary ignored` condition *)
   v_dict_cut_discards : bool;     (* a dictionary cut to the window discards a supplied hasher ... *)
   v_dict_cut_frees : bool;        (* ... through DestroyHasher(&mut self.m8, ..) *)
-  v_copy_try_exits_destroy : bool;(* every `?` inside the copy loop has the destroy call in front of it *)
+  v_copy_err_try_destroys : bool; (* the `?` in the sink-failed arm of the copy loop comes after the destroy call *)
+  v_copy_zero_try_destroys : bool;(* ... and so does the one in the sink-accepted-nothing arm *)
   v_join_failure_continues : bool }. (* a job that cannot be joined no longer ends the stitching loop *)
 
 Definition current (debug : bool) : version :=
@@ -267,7 +268,8 @@ Definition current (debug : bool) : version :=
         (stitch_frees_with_result_alloc && part_returns_state_alloc && stitch_hands_back_alloc)
         multi_clones_with_thread_alloc slice_frees_input_with_alloc0 multi_restores_input_on_error
         dict_installs_hasher_before_any_return dict_ignores_one_byte dict_cut_discards_supplied_hasher
-        dict_cut_frees_supplied_hasher (copy_try_exits =? copy_try_exits_destroying)
+        dict_cut_frees_supplied_hasher
+        copy_sink_error_try_destroys copy_sink_zero_try_destroys
         (join_failure_keeps_stitching && stitch_frees_chunks_after_failure).
 
 Definition legacy (debug : bool) : version :=
@@ -276,7 +278,7 @@ Definition legacy (debug : bool) : version :=
         (v_oneshot_destroys c) (v_writer_drop_destroys c) (v_reader_drop_destroys c)
         (v_copy_returns_destroy c) (v_copy_tail_destroys c) (v_part_destroys c)
         (v_part_error_frees_chunk c) (v_stitch_same_alloc c) (v_clone_same_alloc c) (v_slice_frees_input c) false
-        (v_dict_installs_first c) true false false (v_copy_try_exits_destroy c) false.
+        (v_dict_installs_first c) true false false (v_copy_err_try_destroys c) (v_copy_zero_try_destroys c) false.
 
 (* ------------------------------------------------------------------ phases of a stream call *)
 
@@ -456,8 +458,8 @@ Definition copy_exit_destroys (ver : version) (x : copy_exit) : bool :=
   match x with
   | XWriteError => v_copy_returns_destroy ver
   | XZeroWrite => v_copy_returns_destroy ver
-  | XWriteErrorReadPending => v_copy_try_exits_destroy ver
-  | XZeroWriteReadPending => v_copy_try_exits_destroy ver
+  | XWriteErrorReadPending => v_copy_err_try_destroys ver
+  | XZeroWriteReadPending => v_copy_zero_try_destroys ver
   | XNoProgress => v_copy_tail_destroys ver
   | XFinished => v_copy_tail_destroys ver
   end.
